@@ -23,9 +23,10 @@ MANIFEST = dict(
          'longer; includes the proof that the gamma_L formulas of fkm_load_distribution.py keep scaling monotone); refine_insensitive (non-reversal '
          'samples / repeated values change neither result, incl. concrete invariance of the maximum absolute load); N10_le_N50_le_N90 (P_RAM: knee '
          'shifted by 10^(lg f25 - (0.8 beta - 2) 0.08)) and N10_le_N50_le_N90_RAJ (life * 10^((lg f25 - (0.8 beta - 2) 0.155) |1/d|)) from beta '
-         'antitone; contracts_satisfiable + instance_not_degenerate.  The stage contracts (cycle structure under scaling / refinement, damage '
+         'antitone; contracts_satisfiable + instance_not_degenerate; row layout of per-point data (Assess/Layout.v): knee_rows_tiled_pointwise (rows ordered '
+         '(hysteresis, point): tiling the per-point knees gives row h*n+i the knee of point i), knee_rows_repeated_refuted, uniform_knee_hides_layout.  The stage contracts (cycle structure under scaling / refinement, damage '
          'parameter not smaller for larger loads, curve N antitone in P and isotone in the knee, accumulation antitone, gamma_L, beta antitone, which '
-         'aggregator the code uses) are checked on the implementation\'s stage outputs on every run; the property itself (P_RAM and P_RAJ, lifetime and '
+         'aggregator the code uses, which point\'s knee a row of the batch table uses) are checked on the implementation\'s stage outputs on every run; the property itself (P_RAM and P_RAJ, lifetime and '
          'infinite-life verdict) is decided by relations between assessment calls on every run.',
     note=common.TB_NOTE + 'the stages (HCM, binned notch law, P_RAM/P_RAJ, curves, accumulation) are abstract in Coq: their contracts are checked on sampled '
          'stage outputs, not proved here (C04/C05/C07/C09 model them); the P_RAJ crack-opening loop and its class summation are outside the model except for '
@@ -118,6 +119,43 @@ def gen_sequence(rng, j):
 
 PA_TABLE = [1e-7, 1e-6, 1e-5, 7.2e-5, 1e-3, 2.3e-1, 0.5]
 
+# relative stress gradients [1/mm]: mild notches (fracture-mechanics support factor n_bm clipped to 1: every point has the same component
+# curve) and sharp notches (n_bm > 1 from about G = 4..6 on: the knee of the component curve differs from point to point)
+G_MILD = [0.05, 2 / 15, 0.5, 1.5]
+G_SHARP = [4.0, 8.0, 15.0, 30.0]
+
+# labels of the batch points in the node_id level (the labels are arbitrary; the order of the points is the order of the ratios)
+LAYOUTS = ['range', 'gaps', 'offset', 'unsorted', 'range', 'sharpG', 'gaps']
+
+
+def gen_node_ids(rng, layout, n):
+    if layout == 'offset':
+        o = rng.choice([1, 10, 1000])
+        return list(range(o, o + n))
+    if layout == 'gaps':
+        return sorted(rng.sample(range(0, 60), n))
+    if layout == 'unsorted':
+        ids = rng.sample(range(0, 60), n)
+        if ids == sorted(ids):
+            ids.reverse()
+        return ids
+    return None
+
+
+def gen_G_per_point(rng, n, i0, G, force):
+    """one gradient per point, mild and sharp notches mixed; force: one point gets the sharpest notch (n_bm > 1 for every material of the
+    generator) unless the reference point has it, so that at least two component curves differ"""
+    Gs = [rng.choice(G_MILD + G_SHARP) for _ in range(n)]
+    Gs[i0] = G
+    others = [k for k in range(n) if k != i0]
+    if others:
+        k = rng.choice(others)
+        if force:
+            Gs[k] = G_SHARP[-1] if G < G_SHARP[-1] else G_MILD[0]
+        else:
+            Gs[k] = rng.choice(G_MILD if G in G_SHARP else G_SHARP)
+    return Gs
+
 
 def gen_params(rng, j):
     p = {}
@@ -148,11 +186,31 @@ def smaller_PA(rng, p):
     return pa * rng.choice([0.5, 0.1, 0.9, 0.01])
 
 
+def pa_chain(rng, s, p, G, skind):
+    """the whole table of failure probabilities, pair by pair, for a load distribution with sizeable scatter (gamma_L then depends on P_A as
+    strongly as gamma_M): normal with s_L up to 0.48 L_max (P_L = 2.5 %: the given sequence is the mean + 2 s_L one, 2 s_L < L_max keeps
+    gamma_L positive for every P_A) or up to 0.9 L_max (P_L = 50 %), log-normal with LSD_s up to 0.25.  The sequence is scaled down so that
+    the loads after gamma_L (up to about 4) stay in the range of the other cases."""
+    m = max(abs(v) for v in s)
+    seq = [round(v * rng.uniform(60, 140) / m, 4) for v in s]
+    L = max(abs(v) for v in seq)
+    q = {k: v for k, v in p.items() if k not in ('s_L', 'LSD_s', 'P_L', 'P_A')}
+    q['P_L'] = rng.choice([2.5, 50])
+    if 'LSD_s' in p:
+        q.update({'s_L': None, 'LSD_s': rng.choice([0.05, 0.1, 0.15, 0.25])})
+    else:
+        f = rng.choice([0.15, 0.3, 0.42, 0.48]) if q['P_L'] == 2.5 else rng.choice([0.2, 0.45, 0.7, 0.9])
+        q['s_L'] = round(f * L, 3)
+    specs = [{'seq': seq, 'ratios': None, 'G': G, 'params': dict(q, P_A=pa)} for pa in reversed(PA_TABLE)]
+    return [{'kind': 'pa', 'specs': [specs[k], specs[k + 1]], 'skind': skind, 'chain': True} for k in range(len(specs) - 1)]
+
+
 def gen_items(rng, j, thorough):
     """the relation instances of one generated case: list of dicts {kind, specs, ...} (JSON serialisable)"""
     s, skind = gen_sequence(rng, j)
     p = gen_params(rng, j)
-    G = rng.choice([2 / 15, 0.05, 0.5, 1.5])
+    layout = LAYOUTS[j % len(LAYOUTS)]
+    G = rng.choice(G_MILD + G_MILD + G_SHARP)
     ref = {'seq': s, 'ratios': None, 'G': G, 'params': p}
     items = []
     # batch
@@ -160,12 +218,14 @@ def gen_items(rng, j, thorough):
     ratios = [round(rng.uniform(0.2, 3.0), 2) for _ in range(n)]
     i0 = rng.randrange(n)
     ratios[i0] = 1.0
-    if rng.random() < 0.4:
-        Gs = [rng.choice([0.05, 2 / 15, 0.5, 1.5]) for _ in range(n)]
-        Gs[i0] = G
+    if layout == 'sharpG' or rng.random() < 0.4:
+        Gs = gen_G_per_point(rng, n, i0, G, layout == 'sharpG')
     else:
         Gs = G
     b = {'seq': s, 'ratios': ratios, 'G': Gs, 'params': p}
+    ids = gen_node_ids(rng, layout, n)
+    if ids is not None:
+        b['node_ids'] = ids
     items.append({'kind': 'batch', 'specs': [ref, b], 'i': i0, 'skind': skind})
     others = [k for k in range(n) if k != i0]
     for k in (others if thorough else others[:1]):
@@ -185,6 +245,9 @@ def gen_items(rng, j, thorough):
         items.append({'kind': 'pa', 'specs': [ref, dict(ref, params=dict(p, P_A=pa))], 'skind': skind})
     if abs(p['P_A'] - 0.5) < 1e-9:
         items.append({'kind': 'quantiles', 'specs': [ref], 'skind': skind})
+    # the table of failure probabilities pair by pair, with a load distribution of sizeable scatter
+    if (p.get('s_L') is not None or 'LSD_s' in p) and (thorough or j % 2 == 0):
+        items += pa_chain(rng, s, p, G, skind)
     return items
 
 
@@ -266,10 +329,15 @@ def cls_praj_shared_class_max(d):
 
 
 def cls_class_edge_batch(d):
-    """a point other than the first of a batch whose sequence has a load or load range exactly on a look-up class edge
-    (multiple of max|load|/100): the class is chosen from the first point's float rounding (notch_approximation_law.Binned)"""
+    """a point other than the reference point of a batch whose sequence has a load or load range exactly on a look-up class edge
+    (multiple of max|load|/100): the class is chosen for all points from the float rounding at the reference point
+    (notch_approximation_law.Binned: the point with the largest maximum load, first one on ties; it was the first point before the C07 repair)"""
     it = d['item']
-    if it['kind'] != 'batch' or it['i'] == 0:
+    if it['kind'] != 'batch':
+        return False
+    r = it['specs'][1]['ratios']
+    ref = max(range(len(r)), key=lambda k: (r[k], -k))
+    if it['i'] == ref:
         return False
     return edge_dist(it['specs'][1]['seq']) < EDGE
 
@@ -344,7 +412,55 @@ def cls_hcm_minmax_first_node(d):
     return False
 
 
+def cls_praj_minq_coupling(d):
+    """P_RAJ lifetime (not the verdict) of a batch point with per-point stress gradients whose P_RAJ fatigue-limit classes q differ, for a point
+    whose own q is not the smallest: DamageCalculatorPRAJ._compute_xbar_minus_2 sums the classes from min(q) over ALL points and counts
+    every class from there on twice (previous_j = j), so the damage sum of a point depends on the fatigue-limit class of the others"""
+    it = d['item']
+    if it['kind'] != 'batch' or not d['measure'].startswith('RAJ') or d['measure'] == 'RAJ_inf':
+        return False
+    if not isinstance(it['specs'][1].get('G'), list):
+        return False
+    b = fkmnl.run_jobs([('assess', it['specs'][1])])[0]
+    q = b.get('RAJ_q')
+    if 'error' in b or not q or len(q) != len(it['specs'][1]['ratios']):
+        return False
+    return min(q) < q[it['i']]
+
+
+def cls_praj_crack_closed_from_zero(d):
+    """P_RAJ lifetime / verdict under larger loads (scale, smaller P_A), where a hysteresis that did damage before gets P_RAJ = 0 after:
+    damage_parameter.P_RAJ starts the crack-opening strain epsilon_open_alt at 0.0 (the comment one line above says -inf, FKM nonlinear
+    2.9.7 point 2); after a large compressive plastic pre-strain a hysteresis reaching into tension (S_max > 0) has epsilon_max < 0 and is
+    taken as 'crack does not open' (case 1): no damage, life reported infinite"""
+    it = d['item']
+    if it['kind'] not in ('scale', 'pa') or d['measure'] not in ('RAJ_life', 'RAJ_inf'):
+        return False
+    a, b = fkmnl.run_jobs([('assess', s) for s in it['specs']])
+    if 'error' in a or 'error' in b or a['RAJ_n_hyst'] != b['RAJ_n_hyst']:
+        return False
+    ca, cb = a['RAJ_col'], b['RAJ_col']
+    for pa_, pb_, smax in zip(ca['P_RAJ'][0], cb['P_RAJ'][0], cb['S_max'][0]):
+        if pa_ > 0 and pb_ == 0 and smax > 0:
+            return True
+    return False
+
+
+def cls_unsorted_node_ids(d):
+    """batch whose node_id labels are not in ascending order: maximum_absolute_load (groupby('node_id')) and the zero sample prepended for the
+    first HCM run sort the per-point values by label while the load samples are used in the caller's order: look-up tables, gamma_L and the
+    initial sample land on the wrong points"""
+    it = d['item']
+    if it['kind'] != 'batch':
+        return False
+    ids = it['specs'][1].get('node_ids')
+    return bool(ids) and list(ids) != sorted(ids)
+
+
 def register_classes(res):
+    res.classes['unsorted_node_ids'] = cls_unsorted_node_ids
+    res.classes['praj_minq_coupling'] = cls_praj_minq_coupling
+    res.classes['praj_crack_closed_from_zero'] = cls_praj_crack_closed_from_zero
     res.classes['hcm_minmax_strain_first_node'] = cls_hcm_minmax_first_node
     res.classes['praj_shared_class_max'] = cls_praj_shared_class_max
     res.classes['class_edge_batch'] = cls_class_edge_batch
@@ -378,9 +494,11 @@ def contract_checks(res, items, table):
              'contract w_P / w_Z: curve N antitone in P and isotone in the knee',
              'contract gamma_ok: effective loads after gamma_L and c grow with the scale factor, gamma_L > 0',
              'model aggregators: table maximum per point (a2 = own); class maximum per point or batch maximum (a3)',
-             'contract look-up tables: binned notch law monotone in the load, table maximum = maximum absolute load']
+             'contract look-up tables: binned notch law monotone in the load, table maximum = maximum absolute load',
+             'model knee per point (Layout.v, rows ordered (hysteresis, point)): N of row (h, i) = 1e3 (P_RAM / P_RAM_Z[i])^(1/d) with the knee of point i']
     counts = dict.fromkeys(names, 0)
     curve_jobs, curve_meta = [], []
+    knee_seen = set()
     for it in items:
         sums = [table.get(key(s)) for s in it['specs']]
         if any(s is None or 'error' in s for s in sums):
@@ -420,7 +538,7 @@ def contract_checks(res, items, table):
                     if len(x) != len(y) or not all(close(u, v, 1e-12) or (math.isnan(u) and math.isnan(v)) for u, v in zip(x, y)):
                         fail(names[1], {'item': it, 'branch': t, 'column': col})
                         break
-        if it['kind'] == 'batch':
+        if it['kind'] == 'batch' and not cls_unsorted_node_ids({'item': it}):     # known class: tables sorted by label, not by position
             b, i = sums[1], it['i']
             if all(x.get(k_) for x in (a, b) for k_ in ('RAM_Lmax', 'RAJ_Lmax')):
                 counts[names[6]] += 1
@@ -428,10 +546,41 @@ def contract_checks(res, items, table):
                     fail(names[6], {'item': it, 'table maximum batch/single': [b['RAM_Lmax'][i], a['RAM_Lmax'][0]]})
             km_b, km_a = b.get('RAJ_klass_max'), a.get('RAJ_klass_max')
             if km_b and km_a:
-                own_ok = close(km_b[i], km_a[0], 1e-9)
-                max_ok = close(km_b[i], max(km_b), 1e-12) and max(km_b) >= km_a[0] * (1 - 1e-9)
+                # the class maximum is a P_RAJ value from the iteratively filled Seeger-Beste tables: batch and single solves end on slightly
+                # different iterates (RT_SOLVER, observed up to 1e-6); own vs batch maximum differ by >= 1e-3 when they differ
+                own_ok = close(km_b[i], km_a[0], RT_SOLVER)
+                max_ok = close(km_b[i], max(km_b), 1e-12) and max(km_b) >= km_a[0] * (1 - RT_SOLVER)
                 if not (own_ok or max_ok):
                     fail(names[6], {'item': it, 'klass_max batch': km_b, 'single': km_a})
+        if it['kind'] == 'batch' and key(it['specs'][1]) not in knee_seen:
+            knee_seen.add(key(it['specs'][1]))
+            b = sums[1]
+            col, Z = b['RAM_col'], b.get('P_RAM_Z')
+            if Z and col.get('N') and col.get('P_RAM'):
+                counts[names[8]] += 1
+                # for P_A = 0.5 the N column is left by the last call of N_max_bearable: the knee shifted by knee_PA (Pipeline.v) for one
+                # of the reported probabilities -- one common factor for all points
+                shifts = [1.0] + ([knee_shift(it['specs'][1], q) for q in (1e-6, 0.1, 0.5, 0.9)] if 'RAM_N_90' in b else [])
+                ok_f = first_bad = None
+                for f in shifts:
+                    bad_row = None
+                    for i in range(b['n_points']):
+                        for Pv, Nv in zip(col['P_RAM'][i], col['N'][i]):
+                            if not (Pv > 0 and Z[i] > 0):
+                                continue
+                            zi = Z[i] * f
+                            want = 1e3 * (Pv / zi) ** (1 / (b['d_1'] if Pv >= zi else b['d_2']))
+                            if not close(Nv, want, 1e-9):
+                                bad_row = {'item': it, 'point': i, 'P_RAM': Pv, 'knees': Z, 'N implementation': Nv, 'N with the knee of the point': want}
+                                break
+                        if bad_row:
+                            break
+                    if bad_row is None:
+                        ok_f = f
+                        break
+                    first_bad = first_bad or bad_row
+                if ok_f is None:
+                    fail(names[8], first_bad)
         # per-summary checks on the reference call
         if it['kind'] in ('scale', 'refine'):
             counts[names[3]] += 1
@@ -532,6 +681,16 @@ def gamma_model(params, M):
     return 1.1 if abs(p['P_L'] - 2.5) < 1e-9 else 1.0  # gamma_const
 
 
+def knee_shift(spec, pa):
+    """factor of knee_PA (Pipeline.v): 10^(lg f25 - (0.8 beta(pa) - 2) 0.08), the knee used by N_max_bearable(pa) of the P_RAM calculator"""
+    import pylife.strength.fkm_nonlinear.parameter_calculations as PC
+    import pylife.strength.fkm_nonlinear.constants as K
+    import pandas as pd
+    mg = dict(fkmnl.BASE_PARAMS, **{k: v for k, v in (spec.get('params') or {}).items() if v is not None})['MatGroupFKM']
+    f25 = float(K.for_material_group(pd.Series({'MatGroupFKM': mg})).f_25percent_material_woehler_RAM)
+    return 10 ** (math.log10(f25) - (0.8 * float(PC.compute_beta(pa)) - 2) * 0.08)
+
+
 def gamma_contract(res, items, n):
     """contract gamma_ok + tie of gamma_normal / gamma_const: the sequence entering HCM is gamma_L(L_max) * c * sequence with the model's
     factor; for the scaled sequence it is a common multiple c' >= 1 of the unscaled one"""
@@ -557,8 +716,27 @@ def gamma_contract(res, items, n):
             bad.append({'item': it, 'ratios scaled/unscaled': rs[:4]})
         elif not close(a['Lmax'][0], max(abs(v) for v in a['scaled'][0]), 1e-15):
             bad.append({'item': it, 'table maximum': a['Lmax'][0]})
+    # the factor tie alone for every failure probability of the table (specs of the P_A chains; no assessment call needed)
+    cs = {}
+    for it in items:
+        if it.get('chain'):
+            for sp in it['specs']:
+                cs.setdefault(key(sp), sp)
+    cs = list(cs.values())[:7 * n]
+    outs = fkmnl.run_jobs([('prep', sp) for sp in cs], procs=1) if cs else []
+    n_tab = 0
+    for sp, a in zip(cs, outs):
+        if 'error' in a:
+            continue
+        n_tab += 1
+        M = max(abs(v) for v in sp['seq'])
+        cfac = dict(fkmnl.BASE_PARAMS, **{k: v for k, v in sp['params'].items() if v is not None})['c']
+        want = gamma_model(sp['params'], M) * cfac
+        fa = [y / x for x, y in zip(sp['seq'], a['scaled'][0]) if x != 0]
+        if not fa or not all(close(f, want, 1e-12) for f in fa) or want <= 0:
+            bad.append({'spec': sp, 'factor implementation': fa[:3], 'factor model': want})
     res.oblige('contract gamma_ok / tie gamma_normal, gamma_const: load entering HCM = gamma_L(L_max) * c * load with the model factor; scaled sequence a common multiple >= 1; '
-               'table maximum = maximum absolute load [%d instances]' % len(sc), not bad, json.dumps(bad[:2], default=str)[:3000])
+               'table maximum = maximum absolute load [%d instances + %d table probabilities]' % (len(sc), n_tab), not bad, json.dumps(bad[:2], default=str)[:3000])
     return bad
 
 
@@ -664,8 +842,10 @@ def run(res):
                         'P_RAJ crack-opening loop / class summation not modelled beyond the dependence on the shared class maximum']
     res.cov['rule'] = ('cases: sequence = library test sequence (round numbers, loads on class edges) | the same jittered by <= 3 % and rescaled | random (2..16 samples, '
                        'amplitude 120..420, some with offset) | ties (random with repeated / nearly repeated extremes); parameters: load distribution normal/lognormal/blanket/none, P_A from the FKM table or free, P_L, R_m, material group, '
-                       'R_z, K_p, c, G; per case the relations batch (2..5 points, ratios 0.2..3, uniform or per-point G, reference point at a random position; quick: 2 points compared, '
-                       'thorough: all), refine (0..3 samples per segment: interpolated or repeated), scale (c in 1+1e-4..2), rougher R_z, smaller P_A, N_10<=N_50<=N_90 when P_A=0.5; '
+                       'R_z, K_p, c, G (0.05..30 1/mm: mild and sharp notches); per case the relations batch (2..5 points, ratios 0.2..3, uniform or per-point G with different component '
+                       'curves, node_id labels 0..n-1 / offset / with gaps / not ascending, reference point at a random position; quick: 2 points compared, '
+                       'thorough: all), refine (0..3 samples per segment: interpolated or repeated), scale (c in 1+1e-4..2), rougher R_z, smaller P_A (one random pair; for every second case with a load distribution additionally all 6 adjacent pairs of the P_A table with '
+                       'scatter s_L up to 0.48 / 0.9 L_max or LSD_s up to 0.25), N_10<=N_50<=N_90 when P_A=0.5; '
                        'non-trivial = relation instance with a finite positive lifetime on one side (distinct spec pairs counted)')
     common.standard_proof_stage(res, 'C10')
 
@@ -682,6 +862,24 @@ def run(res):
     for it in items:
         kinds[it['kind']] = kinds.get(it['kind'], 0) + 1
     res.cov['relation_instances'] = kinds
+    # measured reach of the generator dimensions added for per-point data: batches whose points have different component curves
+    # (sharp notches, n_bm > 1), node_id label layouts, P_A table chains with their largest load scatter
+    bspecs = {key(it['specs'][1]): it['specs'][1] for it in items if it['kind'] == 'batch'}
+    dk = 0
+    for k_, sp in bspecs.items():
+        z = (table.get(k_) or {}).get('P_RAM_Z') or []
+        if len({round(v, 9) for v in z}) > 1:
+            dk += 1
+    res.cov['batches'] = len(bspecs)
+    res.cov['batches_with_distinct_curve_knees'] = dk
+    lay = {'default 0..n-1': 0, 'ascending (offset / gaps)': 0, 'not ascending': 0}
+    for sp in bspecs.values():
+        ids = sp.get('node_ids')
+        lay['default 0..n-1' if not ids else 'ascending (offset / gaps)' if list(ids) == sorted(ids) else 'not ascending'] += 1
+    res.cov['node_id_layouts'] = lay
+    chains = [it for it in items if it.get('chain')]
+    res.cov['pa_chain_pairs'] = len(chains)
+    res.cov['pa_chain_pairs_finite'] = sum(1 for it in chains if nontrivial(it, [table[key(s_)] for s_ in it['specs']]))
     res.cov['sequence_kinds'] = {k: sum(1 for it in items if it.get('skind') == k and it['kind'] == 'refine') for k in ('suite', 'jitter', 'random', 'ties')}
 
     bad = contract_checks(res, items, table)
